@@ -236,3 +236,37 @@ Proof.
   intros Ht Hl. unfold raw_unpack. rewrite Ht. cbn [rbind].
   apply N.ltb_lt in Hl. rewrite Hl. reflexivity.
 Qed.
+
+(* ---- on ANY stream (hostile included): a frame that unpacks consumed exactly the number of
+        bytes it reports as its size, and left the rest of the stream untouched ---- *)
+Lemma take_split n s x r : take n s = Ok (x, r) -> s = x ++ r /\ blen x = n.
+Proof.
+  unfold take. destruct (blen s <? n) eqn:E; [discriminate|]. apply N.ltb_ge in E.
+  intros H. apply Ok_inj in H. inversion H; subst. split.
+  - symmetry. apply firstn_skipn.
+  - unfold blen in *. rewrite firstn_length. lia.
+Qed.
+
+Theorem raw_unpack_consumes_its_size reg lim s m ids size rest :
+  raw_unpack reg lim s = Ok (m, ids, size, rest) ->
+  exists frame, s = frame ++ rest /\ blen frame = size.
+Proof.
+  unfold raw_unpack.
+  destruct (take 4 s) as [[b4 s1]| |] eqn:E1; cbn [rbind]; try discriminate.
+  destruct (lim <? N_of_be b4); [discriminate|].
+  destruct (N_of_be b4 <? 4) eqn:E4; [discriminate|]. apply N.ltb_ge in E4.
+  destruct (take 1 s1) as [[xb s2]| |] eqn:E2; cbn [rbind]; try discriminate.
+  set (xl := match xb with [x] => b2n x | _ => 0 end).
+  destruct (N_of_be b4 - 4 <? 1 + xl) eqn:E5; [discriminate|]. apply N.ltb_ge in E5.
+  destruct (take xl s2) as [[ids' s3]| |] eqn:E3; cbn [rbind]; try discriminate.
+  destruct (pipe_append reg [] ids') as [p [e|]]; [discriminate|].
+  destruct (take (N_of_be b4 - 4 - 1 - xl) s3) as [[payload s4]| |] eqn:E6; cbn [rbind]; try discriminate.
+  destruct (pipe_unpack p payload) as [data|]; cbn [of_option rbind]; [|discriminate].
+  destruct (raw_parse data) as [m'| |]; cbn [rbind]; try discriminate.
+  intros H. apply Ok_inj in H. inversion H; subst.
+  apply take_split in E1 as [-> L1]. apply take_split in E2 as [-> L2].
+  apply take_split in E3 as [-> L3]. apply take_split in E6 as [-> L6].
+  exists (b4 ++ xb ++ ids ++ payload). split.
+  - rewrite <- !app_assoc. reflexivity.
+  - rewrite !blen_app. lia.
+Qed.
